@@ -372,6 +372,7 @@ prop(
     canaries=[("./plugin/action/mask", "replay/C17/zz_replay_c17_test.go", "TestVerifReplayC17Tail"), ("./plugin/input/k8s", "replay/C13/zz_replay_c13_test.go", "TestVerifReplayC13"),
               ("./pipeline", "replay/C13/zz_timeout_wrong_action_test.go", "TestVerifTimeoutGoesToTheWaitingAction"),
               ("./metric", "replay/C13/zz_label_utf8_test.go", "TestVerifLabelValuesFromEventContent"),
+              ("./plugin/action/convert_utf8_bytes", "replay/C13/zz_convert_utf8_alias_test.go", "TestVerifConvertedFieldsKeepTheirValues"),
               ("./plugin/action/decode", "replay/C13/zz_decode_prefix_test.go", "TestVerifDecodePrefixSurvivesLaterActions"),
               ("./cfg/substitution", "replay/C13/trimto_empty_cutset_test.go", "TestVerifTrimToEmptyCutset")],
     known_canaries=[("./plugin/action/mask", "replay/C17/zz_replay_c17_test.go", "TestVerifReplayC17Order")],
@@ -383,7 +384,7 @@ prop(
         "the modify action's field filters (cut, trim_to, re: results are sub-slices of the value; group indices within the submatch vector) and the match-rule comparison (prefix / suffix cuts). "
         "The processor hands a stream time-out event only to an action that is waiting (busy at its index, or no action is busy), never to the action that merely returned non-pass last - that one would be called with a nil Root. "
         "Metric label values built from event fields are valid UTF-8 after truncateLabels (prometheus panics otherwise). The decode action's unsafe key-name views lie inside the buffer decodeJson returns, and Do keeps exactly that buffer as event.Buf (rule for ByteToStringUnsafe views: inside the live prefix of a buffer that stays the event's). "
-        "Six fixes (mask tail, k8s multiline, trim_to with an empty cutset, time-out addressed to the wrong action, label values, decode key names) and one open known finding (mask: nested / out-of-order groups) came out of it."
+        "Seven fixes (mask tail, k8s multiline, trim_to with an empty cutset, time-out addressed to the wrong action, label values, decode key names, convert_utf8_bytes shared buffer) and one open known finding (mask: nested / out-of-order groups) came out of it."
     ),
     undecided=[
         "the full statement (27 plugins x every accepted configuration x every JSON event, result still well-formed JSON) lives in insane-json's mutable node graph (third-party): not applicable to contracts on file.d code",
